@@ -156,3 +156,26 @@ Definition grouped (m : amap) : bool := nodup_N (map fst (go_map_range m)).
 (* m.SetMapIndex(key, value) for a key the map does not hold yet: the entries of the value (they
    carry the key as the head of their paths) go to their sorted places *)
 Definition go_map_set (k : N) (v : amap) (m : amap) : amap := ins_all v m.
+
+(* ---------------------------------------------------------------- the fan-in dispatch (mergeValues) *)
+(* reflect.ValueOf(x).Type().Kind() == reflect.Map for what flows through the engine: true of a
+   plain map value; a streamReader is a struct, a string is a string *)
+Definition g_is_map (g : gval) : bool :=
+  match g with GV v => is_map v | GS _ => false end.
+
+(* the plain values of a list without readers *)
+Fixpoint all_vals (vs : list gval) : option (list val) :=
+  match vs with
+  | [] => Some []
+  | GV x :: r => match all_vals r with Some l => Some (x :: l) | None => None end
+  | GS _ :: _ => None
+  end.
+
+(* mergeMap(vs) as called by mergeValues on the engine's values: on plain values it is [mm]; a
+   reader among them is a value of another type (mergeMap: "field type mismatch", unless it
+   meets a duplicated key first: an error either way) *)
+Definition merge_map_on (mm : list val -> res val) (vs : list gval) : res gval :=
+  match all_vals vs with
+  | Some l => res_map GV (mm l)
+  | None => Err e_type
+  end.
